@@ -153,6 +153,23 @@ Proof.
 Qed.
 Print Assumptions C05_ids_unique_all_calls.
 
+(* a history with colliding pre-set IDs, a deep copy, an element copy added to the copy, and deepCopyTo into it:
+   the guard holds, and the IDs and parents at the end *)
+Example C05_history_with_copies :
+  let ops := map XBase [ONewDoc 1; ONew 2 KObj 0 false; ONew 3 KObj 0 false; ONew 4 KPack 1 false;
+                        OSetId 2 (mkId 0 4200 0); OSetId 3 (mkId 0 4200 0); OAdd 1 2; OAdd 1 3; OAdd 1 4]
+             ++ [XDeepCopy 1 9 20; XCopy 2 30; XBase (OAdd 9 30); XDeepCopyTo 1 9 40] in
+  xshaped_run_b gen_plans ops empty_state = true /\
+  match xrun_succ gen_plans ops empty_state with
+  | Some s => map (fun h => option_map (fun e => (ival (eid e), eparent e)) (get_elem s h)) [2; 3; 4; 20; 21; 22; 30; 40; 41; 42]%positive
+              = [Some (4200, Some 1%positive); Some (4201, Some 1%positive); Some (4097, Some 1%positive);
+                 Some (4200, Some 9%positive); Some (4201, Some 9%positive); Some (4097, Some 9%positive);
+                 Some (4202, Some 9%positive); Some (4203, Some 9%positive); Some (4204, Some 9%positive);
+                 Some (4098, Some 9%positive)]
+  | None => False
+  end.
+Proof. vm_compute. auto. Qed.
+
 (* reassignIds: membership consistency and uniqueness are kept, whatever is renumbered and in whatever order *)
 Theorem C05_reassign_keeps_ids_unique : forall d s s' u, reassign_ids d s = (s', inl u) -> MemOk s -> Uniq s ->
   MemOk s' /\ Uniq s'.
